@@ -54,7 +54,12 @@ struct ProbeSink : public Sink {
         ++g_inflight; if (g_inflight > g_maxInflight) g_maxInflight = g_inflight;
         if (P(2)) vf_assert(g_inflight == 1, "no two threads are inside the pipeline at the same moment");
         int id = m.message().size() == 1 ? m.message().at(0).unicode() - 'a' : -1;
-        Delivery d; d.id = id; d.seq = m.attribute(QStringLiteral("seq_number")).toInt(); d.tid = qm_cur_tid;
+        Delivery d; d.id = id; d.tid = qm_cur_tid;
+#ifndef VF_NOSEQ
+        d.seq = m.attribute(QStringLiteral("seq_number")).toInt();
+#else
+        d.seq = g_ndel;          // jobs without the sequence-number handler (C04: what is delivered, not how it is numbered)
+#endif
         // content as logged: type, line, file/function/category text, originating thread id
         bool ok = id >= 0 && id < NMSG;
         if (ok) {
@@ -100,7 +105,10 @@ static void scheduler(int point)
     ++g_depth;
     // fairness of sleeping / waiting: a thread that sleeps or waits lets the worker make progress if it can
     if ((point == QM_Y_SLEEP || point == QM_Y_WAIT) && g_worker) g_worker->step();
-    for (int k = 0; k < 2; ++k) {
+#ifndef VF_SCHED_K
+#define VF_SCHED_K 2          // scheduling choices per yield point
+#endif
+    for (int k = 0; k < VF_SCHED_K; ++k) {
         int who = vf_range(-1, VF_PROD);          // -1: nobody, 0..P-1: a producer, P: the worker
         if (who >= 0 && who < VF_PROD) {
             for (int p = 0; p < VF_PROD; ++p) if (p == who && !g_busy[p] && g_next[p] < VF_MSGS && qm_cur_tid != tid_of_producer(p)) producer_step(p);
@@ -139,7 +147,9 @@ extern "C" void h_conc()
     static QCoreApplication *app = new QCoreApplication();
     g_logger = new Logger();
     auto probe = QSharedPointer<ProbeSink>::create();
+#ifndef VF_NOSEQ
     g_logger->append(SeqNumberAttrPtr::create());
+#endif
 #ifdef VF_NESTED
     g_logger->pipeline().append(probe);
 #else
